@@ -13,8 +13,8 @@ import (
 
 func tmplRegexp(t string) *regexp.Regexp {
 	q := regexp.QuoteMeta(t)
-	q = strings.ReplaceAll(q, "%s", "(?s:.*)")
-	q = strings.ReplaceAll(q, "%v", "(?s:.*)")
+	q = strings.ReplaceAll(q, "%s", "((?s:.*))")
+	q = strings.ReplaceAll(q, "%v", "((?s:.*))")
 	return regexp.MustCompile("(?s)^" + q + "$")
 }
 
@@ -33,26 +33,27 @@ func init() {
 		{tmplRegexp(text.ErrorConvertToInt), "EConvInt"},
 		{tmplRegexp(text.ErrorConvertToFloat64), "EConvFloat"},
 		{tmplRegexp(text.ErrorArgumentIsNotKeyValue), "ENotKeyValue"},
-		{regexp.MustCompile(`(?s)^wrong value for option '.*', valid values are .*$`), "EWrongValue"},
+		{regexp.MustCompile(`(?s)^wrong value for option '(.*)', valid values are (.*)$`), "EWrongValue"},
 		{tmplRegexp(text.MessageOnUnknown), "EUnknown"},
 	}
 }
 
-// classifyErr maps an error of Parse to the model's error kinds.
-func classifyErr(msg string, isParsing bool) string {
+// classifyErr maps an error of Parse to the model's error kinds and extracts the arguments of the
+// message format (templates are read from package text, so a change of wording is followed).
+func classifyErr(msg string, isParsing bool) (string, []string) {
 	for _, c := range classifiers {
-		if c.re.MatchString(msg) {
+		if m := c.re.FindStringSubmatch(msg); m != nil {
 			// messages that wrap ErrorParsing and messages that do not are different kinds
 			if (c.kind == "EMissingArg" || c.kind == "EArgWithDash") != isParsing {
 				continue
 			}
-			return c.kind
+			return c.kind, m[1:]
 		}
 	}
 	if isParsing {
-		return "EMissingRequired"
+		return "EMissingRequired", []string{msg}
 	}
-	return "EUser"
+	return "EUser", []string{}
 }
 
 func isSubsequence(sub, full []string) bool {
